@@ -428,8 +428,12 @@ func corr(seed uint64, n int) {
 	r := newRunner(budget)
 	defer r.stop()
 	id := 0
+	// the reference parameter sets the stage-2 targets parse against (the model parses them itself)
+	fmt.Fprintf(out, "CTX\tavcsps\t%s\n", strings.Join(avcSPSHex, ","))
+	fmt.Fprintf(out, "CTX\tavcpps\t%s\n", strings.Join(avcPPSHex, ","))
 	forRounds(n, func(round, m int) {
 		cs := append(walkerCases(seed, round, m, n), seiCorrCases(seed+7, round, m, n)...)
+		cs = append(cs, stage2CorrCases(seed+11, round, m, n)...)
 		r.batch(cs, func(i int, res result) {
 			c := cs[i]
 			if res.class == "skipped" {
